@@ -879,6 +879,10 @@ func (c *pathCtx) recordPanic(e interface{}) {
 	if i := strings.IndexAny(short, "[\"'"); i > 0 {
 		short = short[:i]
 	}
+	if strings.HasSuffix(site, "@ Panic") && !strings.HasPrefix(msg, "panic: runtime error") {
+		// explicit panic(err) of the code under test: the text depends on the input
+		short = "explicit panic"
+	}
 	v.Signature = "panic|" + site + "|" + digitsRe.ReplaceAllString(short, "N")
 	func() {
 		defer func() { recover() }()
